@@ -42,6 +42,7 @@ type Engine struct {
 	unresolved map[string]int
 	fieldMaps  []string
 	roGlobals    map[*ssa.Global]bool // package-level variables that are only written by package initialisation
+	globalSliceLen map[*ssa.Global]int64 // read-only slice tables initialised from a composite literal: their length
 	nonNilGlobal map[*ssa.Global]bool // ... and are initialised with errors.New / fmt.Errorf
 	knownFailing map[string]bool // "<function>/post:<tag>" of clauses listed as known findings
 	safeOn     bool
@@ -84,6 +85,7 @@ func LoadEngine(repo string) (*Engine, error) {
 	}
 	e.roGlobals = map[*ssa.Global]bool{}
 	e.nonNilGlobal = map[*ssa.Global]bool{}
+	e.globalSliceLen = map[*ssa.Global]int64{}
 	written := map[*ssa.Global]bool{}
 	for fn := range ssautil.AllFunctions(prog) {
 		if !isInRepo(fn) {
@@ -107,6 +109,14 @@ func LoadEngine(repo string) (*Engine, error) {
 				if c, ok := st.Val.(*ssa.Call); ok {
 					if f, ok := c.Call.Value.(*ssa.Function); ok && (fnName(f) == "errors.New" || fnName(f) == "fmt.Errorf") {
 						e.nonNilGlobal[g] = true
+					}
+				}
+				// a table initialised from a composite literal: its length is the literal's
+				if sl, ok := st.Val.(*ssa.Slice); ok && sl.Low == nil && sl.High == nil {
+					if al, ok := sl.X.(*ssa.Alloc); ok {
+						if at, ok := al.Type().Underlying().(*types.Pointer).Elem().Underlying().(*types.Array); ok {
+							e.globalSliceLen[g] = at.Len()
+						}
 					}
 				}
 			}
